@@ -1,7 +1,7 @@
 """C15 clauses that need runtime context the history machine does not model, stated directly on the
 implementation: (a) histories of set_io_objects / clear_io_objects calls with partial arguments, each followed
 by a read: every object the reader produces is an instance of exactly the class configured by the LAST call
-(argument, or the base class when omitted) and lives only in that class's registry; (b) a user constructor
+(argument given positionally or by keyword; the base class when omitted or an explicit None) and lives only in that class's registry; (b) a user constructor
 that fails leaves no trace even while the caught exception (and its traceback) is still referenced.
 stdin: {"seed": int, "n": int}   stdout: {"failures": [...]}"""
 import sys, json, gc, random, warnings, logging
@@ -46,13 +46,25 @@ def io_history(rng):
             steps.append("clear_io_objects()")
             expect = None
             continue
-        kw = {}
-        for k in "DSCMR":
-            if rng.random() < 0.4:
-                kw[k] = rng.choice(SUBS[k])
-        objectio.set_io_objects(**kw)
-        steps.append("set_io_objects(" + ", ".join(f"{k}={v.__name__}" for k, v in kw.items()) + ")")
-        expect = {k: kw.get(k, BASE[k]) for k in "DSCMR"}
+        # every slot in every argument form: omitted, an explicit None (what a wrapper forwarding its own optional class
+        # arguments passes; it means "base class", like omission), the base class itself, a user subclass; a random prefix
+        # of the five slots is passed positionally, the rest by keyword
+        form = {k: rng.choice(("omit", "omit", "none", "base", "sub", "sub")) for k in "DSCMR"}
+        val = {k: None if f == "none" else BASE[k] if f == "base" else rng.choice(SUBS[k]) if f == "sub" else None
+               for k, f in form.items()}
+        npos = rng.choice((0, 0, 0, 1, 2, 3, 4, 5))
+        pos, kw = [], {}
+        for i, k in enumerate("DSCMR"):
+            if i < npos:
+                pos.append(val[k])            # a positional slot cannot be omitted: "omit" is spelt None there
+            elif form[k] != "omit":
+                kw[k] = val[k]
+        if rng.random() < 0.3:                # keyword order is free
+            kw = dict(sorted(kw.items(), key=lambda kv: rng.random()))
+        objectio.set_io_objects(*pos, **kw)
+        nm = lambda v: "None" if v is None else v.__name__
+        steps.append("set_io_objects(" + ", ".join([nm(v) for v in pos] + [f"{k}={nm(v)}" for k, v in kw.items()]) + ")")
+        expect = {k: val[k] if val[k] is not None else BASE[k] for k in "DSCMR"}
     if expect is None:
         return None
     for c in ALL:
@@ -85,6 +97,14 @@ def io_history(rng):
                 # StrandS is a subclass of ComplexS with its own registry: only its own kind is checked
                 if len(c._instanceNames) and c not in expect.values():
                     bad.append(f"registry of {c.__name__} is not empty although it is not configured")
+    # single lines go through the same slots
+    try:
+        one = objectio.read_pil_line("length c = 7")
+        if type(one) is not expect["D"]:
+            bad.append(f"read_pil_line('length c = 7') gave a {type(one).__name__}, configured class is {expect['D'].__name__}")
+    except Exception as e:
+        bad.append(f"read_pil_line('length c = 7') raised {type(e).__name__}: {e}")
+    one = None
     # closing the IO session does not touch what the result holds: every held object stays the singleton of its name
     # in the class that was configured
     objectio.clear_io_objects()
